@@ -595,6 +595,30 @@ def source_info(fn):
     return hashlib.sha256(src.encode()).hexdigest(), fil, line
 
 
+def receiver_bound(fn, pc):
+    """A contract may name a base-class function while its receiver is declared as ONE concrete subclass
+    (`self: Obj(K)` / `cls: Const(K)`).  What a caller reaches is `K.<name>`; if a subclass (now) overrides the method,
+    that override is what must satisfy the contract, so it is what gets verified."""
+    import types
+    try:
+        if not pc.params or pc.params[0][0] not in ('self', 'cls'):
+            return fn
+        sh = pc.params[0][1]
+        k = sh.kw.get('cls') if sh.kind == 'obj' else (sh.kw.get('value') if sh.kind == 'const' else None)
+        if not isinstance(k, type):
+            return fn
+        name = fn.__name__
+        if name.startswith('__') and not name.endswith('__'):
+            return fn
+        live = getattr(k, name, None)
+        f2 = getattr(live, '__func__', live)
+        if isinstance(f2, types.FunctionType) and f2 is not fn and f2.__code__.co_argcount == fn.__code__.co_argcount:
+            return f2
+    except Exception:
+        pass
+    return fn
+
+
 def run_unit(cdef, config=None, callee_contracts=None):
     """Generate and discharge all obligations of one contract on the current
     source of its target."""
@@ -606,8 +630,9 @@ def run_unit(cdef, config=None, callee_contracts=None):
     t0 = time.time()
     try:
         fn, owner, kind = resolve_target(cdef.target)
-        res.source_sha, res.file, res.line = source_info(fn)
         pc = parsed(cdef)
+        fn = receiver_bound(fn, pc)
+        res.source_sha, res.file, res.line = source_info(fn)
     except Exception as e:
         res.status = 'undecided'
         res.reason = 'cannot resolve/parse: %r' % (e,)
